@@ -102,7 +102,9 @@ int cp_smlers_ver(bn_t td, smlers_t *s, size_t size, const uint8_t *msg,
 		for (int i = 0; i < size; i++) {
 			ec_add(t, t, s[i]->sig->h);
 		}
-		if (ec_cmp(pp, t) == RLC_EQ) {
+		/* The trapdoor must be reduced modulo the group order. */
+		if (bn_sign(td) == RLC_POS && bn_cmp(td, n) == RLC_LT &&
+				ec_cmp(pp, t) == RLC_EQ) {
 			flag = 1;
 			for (int i = 0; i < size; i++) {
 				ec_copy(y[0], s[i]->sig->h);
